@@ -9,6 +9,9 @@
 //!  meta:  `-` none | `e` Exif in JPEG + box | `E` Exif box only | `x` xml box only | `c` comment | `ec`
 //!  feed:  `w` read whole | `<n>` feed in chunks of n bytes | `emit` print the container and the JPEG as hex
 //! Answer: `ok <jpeg bytes>` | `diff at=<i> got=<len> want=<len>` | `status <s>` | `err <class>` | `panic…`
+//! Further ops: `pjpeg` (progressive scripts, restart intervals, seeded tables; see `pcase`), `sjpeg` (the same
+//! with chroma subsampling / one component and sizes in pixels; see `scase`, its answers end in facts about the
+//! input: `mcu=… pad=… lesser-scans=…`), `hjbrd` (damaged reconstruction data; see `hcase`).
 use jxl_oxide::{InitializeResult, JpegReconstructionStatus, JxlImage, JxlThreadPool};
 use verif_harness::synth::*;
 use verif_harness::*;
@@ -109,6 +112,8 @@ fn case(w: &[&str]) -> Option<String> {
         height: bh * 8,
         quant: default_quant(),
         blocks,
+        sampling: S444,
+        gray: false,
         scans,
         extra_zero_runs,
         padding: None,
@@ -297,9 +302,107 @@ fn pspec(w: &[&str]) -> Option<(JpegSpec, Rng)> {
     if bw == 0 || bh == 0 || bw > 256 || bh > 256 {
         return None;
     }
-    let n = bw * bh;
+    build_spec(seed, bw * 8, bh * 8, S444, false, script, ri, tables, style, resets, 0)
+}
+
+/// Sampling factors by name: `444` | `420` | `422` | `440` (luma factor 2 in both / the horizontal /
+/// the vertical direction, chroma 1x1) | `g` one component | `x<H0><V0><H1><V1><H2><V2>` anything else.
+fn sampling_of(name: &str) -> Option<([(usize, usize); 3], bool)> {
+    Some(match name {
+        "444" => (S444, false),
+        "420" => ([(2, 2), (1, 1), (1, 1)], false),
+        "422" => ([(2, 1), (1, 1), (1, 1)], false),
+        "440" => ([(1, 2), (1, 1), (1, 1)], false),
+        "g" => (S444, true),
+        _ => {
+            let d: Vec<usize> = name.strip_prefix('x')?.chars().map(|c| c.to_digit(10).unwrap_or(0) as usize).collect();
+            if d.len() != 6 || d.iter().any(|&v| v != 1 && v != 2) {
+                return None;
+            }
+            ([(d[0], d[1]), (d[2], d[3]), (d[4], d[5])], false)
+        }
+    })
+}
+
+/// `sjpeg <seed> <width> <height> <sampling> <script> <ri> <tables> <style> <resets> <ezr> <pad> <feed>`
+///  width, height in pixels (1..=2048), need not be multiples of 8 or of the MCU
+///  sampling: see `sampling_of` · script: as `pjpeg`, and `bm` baseline {0,1},{2} | `bc` baseline {0},{1,2} |
+///  `br` baseline {2},{0},{1} · ezr: number of extra zero-run entries (baseline scripts only)
+///  everything else as `pjpeg`; a grey image keeps component 0 of every scan of the script
+fn scase(w: &[&str]) -> Option<String> {
+    let [seed, width, height, samp, script, ri, tables, style, resets, ezr, pad, feed] = w else { return None };
+    let seed: u64 = seed.parse().ok()?;
+    let (width, height): (usize, usize) = (width.parse().ok()?, height.parse().ok()?);
+    if width == 0 || height == 0 || width > 2048 || height > 2048 {
+        return None;
+    }
+    let (sampling, gray) = sampling_of(samp)?;
+    let (spec, rng) = build_spec(seed, width, height, sampling, gray, script, ri, tables, style, resets, ezr.parse().ok()?)?;
+    finish(spec, rng, pad, "-", feed)
+}
+
+/// Facts about the input of an `sjpeg` line, appended to its answer whatever the decoder did:
+/// `mcu=<Hmax>x<Vmax> pad=<blocks of MCU padding> lesser-scans=<scans none of whose components has the
+/// frame's largest factor in some direction>` (such a scan still counts its MCUs by the frame's factors)
+fn sfacts(w: &[&str]) -> Option<String> {
+    let [seed, width, height, samp, script, ri, tables, style, resets, ezr, _pad, _feed] = w else { return None };
+    let (sampling, gray) = sampling_of(samp)?;
+    let (spec, _) = build_spec(seed.parse().ok()?, width.parse().ok()?, height.parse().ok()?, sampling, gray, script, ri, tables, style, resets, ezr.parse().ok()?)?;
+    let (hm, vm) = spec.max_sampling();
+    let lesser = spec
+        .scans
+        .iter()
+        .filter(|sc| sc.iter().all(|&c| spec.sampling[c].0 < hm) || sc.iter().all(|&c| spec.sampling[c].1 < vm))
+        .count();
+    let pad: usize = (0..spec.ncomp())
+        .map(|c| {
+            let ((gw, gh), (ow, oh)) = (spec.grid(c), spec.own_grid(c));
+            gw * gh - ow * oh
+        })
+        .sum();
+    Some(format!("mcu={hm}x{vm} pad={pad} lesser-scans={lesser}"))
+}
+
+#[allow(clippy::too_many_arguments)]
+fn build_spec(
+    seed: u64,
+    width: usize,
+    height: usize,
+    sampling: [(usize, usize); 3],
+    gray: bool,
+    script: &str,
+    ri: &str,
+    tables: &str,
+    style: &str,
+    resets: &str,
+    nezr: usize,
+) -> Option<(JpegSpec, Rng)> {
+    let (script, tables, style) = (&script, &tables, &style);
+    // geometry first: the padded grids say how many blocks a component has
+    let geo = JpegSpec {
+        width,
+        height,
+        quant: default_quant(),
+        blocks: [Vec::new(), Vec::new(), Vec::new()],
+        sampling,
+        gray,
+        scans: Vec::new(),
+        extra_zero_runs: Vec::new(),
+        padding: None,
+        jfif: false,
+        exif_app1: None,
+        comment: None,
+        progressive: false,
+        scan_params: Vec::new(),
+        restart_interval: 0,
+        tables: None,
+        dht_split: false,
+        forced_resets: Vec::new(),
+    };
+    let ncomp = geo.ncomp();
+    let nb = |c: usize| if c < ncomp { geo.nblocks(c) } else { 0 };
     let mut rng = Rng(seed.wrapping_mul(0x9e3779b97f4a7c15) | 1);
-    let mut blocks = [random_blocks(seed, n), random_blocks(seed + 100, n), random_blocks(seed + 200, n)];
+    let mut blocks = [random_blocks(seed, nb(0)), random_blocks(seed + 100, nb(1)), random_blocks(seed + 200, nb(2))];
     match *style {
         "n" => {}
         "q" => {
@@ -364,9 +467,21 @@ fn pspec(w: &[&str]) -> Option<(JpegSpec, Rng)> {
             (vec![0], 1, 63, 1, 0),
         ],
         "R" => random_script(&mut rng),
+        "bm" => vec![(vec![0, 1], 0, 63, 0, 0), (vec![2], 0, 63, 0, 0)],
+        "bc" => vec![(vec![0], 0, 63, 0, 0), (vec![1, 2], 0, 63, 0, 0)],
+        "br" => vec![(vec![2], 0, 63, 0, 0), (vec![0], 0, 63, 0, 0), (vec![1], 0, 63, 0, 0)],
         _ => return None,
     };
-    let progressive = !script.iter().all(|s| (s.1, s.2, s.3, s.4) == (0, 63, 0, 0)) || matches!(script.len(), 10);
+    let was_ten = script.len() == 10;
+    let script: Vec<(Vec<usize>, u8, u8, u8, u8)> = script
+        .into_iter()
+        .map(|mut s| {
+            s.0.retain(|&c| c < ncomp);
+            s
+        })
+        .filter(|s| !s.0.is_empty())
+        .collect();
+    let progressive = !script.iter().all(|s| (s.1, s.2, s.3, s.4) == (0, 63, 0, 0)) || was_ten;
     let tables_spec = match *tables {
         "k" if !progressive => None,
         "c" | "cs" => Some(custom_tables(seed)),
@@ -374,20 +489,46 @@ fn pspec(w: &[&str]) -> Option<(JpegSpec, Rng)> {
     };
     let nresets: usize = resets.parse().ok()?;
     let mut forced_resets = vec![Vec::new(); script.len()];
+    let orders: Vec<Vec<(usize, usize)>> = script.iter().map(|s| geo.scan_order(&s.0).0).collect();
     for _ in 0..nresets {
         let s = (rng.next() % script.len() as u64) as usize;
-        let blocks_in_scan = (n * script[s].0.len()) as u64;
+        let blocks_in_scan = orders[s].len() as u64;
         forced_resets[s].push((rng.next() % blocks_in_scan) as u32);
     }
+    let jfif = rng.next() % 4 != 0;
+    // extra zero runs: (block index within the scan, number of ZRL symbols) on blocks that end in zeros
+    let mut extra_zero_runs = vec![Vec::new(); script.len()];
+    if nezr > 0 && progressive {
+        return None;
+    }
+    for _ in 0..nezr {
+        let s = (rng.next() % script.len() as u64) as usize;
+        let b = (rng.next() % orders[s].len() as u64) as usize;
+        let (comp, bi) = orders[s][b];
+        let last_nz = blocks[comp][bi].iter().rposition(|&v| v != 0).unwrap_or(0);
+        let room = ((63 - last_nz) / 16) as u32;
+        if room == 0 {
+            continue;
+        }
+        let runs = 1 + (rng.next() % room as u64) as u32;
+        if !extra_zero_runs[s].iter().any(|&(x, _)| x == b as u32) {
+            extra_zero_runs[s].push((b as u32, runs));
+        }
+    }
+    for v in &mut extra_zero_runs {
+        v.sort();
+    }
     let spec = JpegSpec {
-        width: bw * 8,
-        height: bh * 8,
+        width,
+        height,
         quant: default_quant(),
         blocks,
+        sampling,
+        gray,
         scans: script.iter().map(|s| s.0.clone()).collect(),
-        extra_zero_runs: vec![Vec::new(); script.len()],
+        extra_zero_runs,
         padding: None,
-        jfif: rng.next() % 4 != 0,
+        jfif,
         exif_app1: None,
         comment: None,
         progressive,
@@ -423,6 +564,21 @@ fn main() {
                 Ok(Some(s)) => s,
                 Ok(None) => "bad-op".into(),
                 Err(p) => p,
+            }
+        }
+        ["sjpeg", rest @ ..] => {
+            let rest: Vec<String> = rest.iter().map(|s| s.to_string()).collect();
+            match catch(move || {
+                let r: Vec<&str> = rest.iter().map(|s| s.as_str()).collect();
+                scase(&r).map(|a| (a, sfacts(&r).unwrap_or_default()))
+            }) {
+                Ok(Some((a, _))) if a.starts_with("emit ") => a,
+                Ok(Some((a, f))) => format!("{a} {f}"),
+                Ok(None) => "bad-op".into(),
+                Err(p) => {
+                    let r: Vec<&str> = w[1..].to_vec();
+                    format!("{p} {}", sfacts(&r).unwrap_or_default())
+                }
             }
         }
         ["pjpeg", rest @ ..] => {
